@@ -208,6 +208,37 @@ def c12_2(ctx):
         ctx.check(ok, f'prov:numeric_enumeration:{d}', ne.site(c), 'the code part uses the bytecode dictionary, the argument part the argument dictionary', f'{d} with size {size}')
 
 
+def c12_enum_keys(ctx):
+    ctx.rule('C12.6', 'the members of a numeric enumeration are numbers in every definition format', 2)
+    from engine.helpers import self_attr_stores
+    ini = ctx.repo.func(T + 'numeric_enumeration.NumericEnumerationOperand.__init__')
+    cls = ini.cls
+    for attr, sec in (('_bytecode_dictionary', 'bytecode'), ('_argument_dictionary', 'argument')):
+        st = [v for (_s, _t, v) in self_attr_stores(ini.node, attr) if v is not None and not (isinstance(v, ast.Constant) and v.value is None)]
+        ok = len(st) == 1
+        seen = '; '.join(unparse(v) for v in st)
+        if ok:
+            v = st[0]
+            comp = v if isinstance(v, ast.DictComp) else None
+            if isinstance(v, ast.Call) and isinstance(v.func, ast.Attribute) and isinstance(v.func.value, ast.Name) and v.func.value.id in ('self', 'cls', cls.name) \
+                    and v.func.attr in cls.methods and len(v.args) == 1:
+                h = cls.methods[v.func.attr]
+                rr = [r for r in returns(h) if r.value is not None and not (isinstance(r.value, ast.Constant) and r.value.value is None)]
+                comp = rr[0].value if len(rr) == 1 and isinstance(rr[0].value, ast.DictComp) else None
+                src = v.args[0]
+            else:
+                src = comp.generators[0].iter if comp is not None else None
+            ok = comp is not None and len(comp.generators) == 1 and not comp.generators[0].ifs and f"['{sec}']" in unparse(src) and 'value_dict' in unparse(src)
+            if ok:
+                kv = comp.generators[0].target
+                kname = unparse(kv.elts[0]) if isinstance(kv, ast.Tuple) and len(kv.elts) == 2 else None
+                # string keys are converted with int(); the value is kept
+                ok = kname is not None and any(isinstance(c, ast.Call) and unparse(c.func) == 'int' and c.args and unparse(c.args[0]) == kname for c in ast.walk(comp.key)) \
+                    and unparse(comp.value) == unparse(kv.elts[1])
+        ctx.check(ok, f'enum:keys-are-numbers:{sec}', ini.site(), 'the keys of the value dictionary are read as integers (a JSON definition can only write them as strings)',
+                  f'{attr} = {seen}: with string keys no integer operand value is ever a member')
+
+
 def c12_3(ctx):
     ctx.rule('C12.3', 'bit-width gate: an abort bounded by powers of two in the field\'s bit size, for both signs', 2)
     ab = ctx.repo.func(PB + '.append_bits')
@@ -317,7 +348,7 @@ def c12_macro_operands(ctx):
               'the macro operands\' parts are never evaluated: `sh2 7` is accepted although the operand is restricted to {1, 2}')
 
 
-RULES = [c12_1, c12_2, c12_3, c12_4, c12_macro_steps, c12_state, c12_paths, c12_macro_operands]
+RULES = [c12_1, c12_2, c12_3, c12_4, c12_macro_steps, c12_state, c12_paths, c12_macro_operands, c12_enum_keys]
 
 _P = 'assembler/bytecode/parts.py'
 _R = 'assembler/model/operand/types/relative_address.py'
